@@ -32,6 +32,28 @@ fn token_pool(rng: &mut Rng) -> Vec<i64> {
     t
 }
 
+/// Tokens on both sides of every shard boundary: the smallest biased token whose shard is k is
+/// ceil(k * 2^64 / n) >> msb (plus any value of the ignored top bits).
+fn shard_boundary_tokens(n: u16, msb: u8, rng: &mut Rng, max_k: usize) -> Vec<i64> {
+    let mut out = Vec::new();
+    let ks: Vec<u32> = if (n as usize) <= max_k { (1..n as u32).collect() } else { (0..max_k).map(|_| 1 + rng.below(n as u64 - 1) as u32).collect() };
+    for k in ks {
+        // ceil(k * 2^64 / n)
+        let num: u128 = (k as u128) << 64;
+        let b: u128 = num.div_ceil(n as u128);
+        let shifted = b as u64;
+        // biased << msb must reach `shifted`: biased = ceil(shifted / 2^msb) in the low (64 - msb) bits
+        let low: u64 = if msb == 0 { shifted } else { (shifted >> msb) + if shifted & ((1u64 << msb) - 1) != 0 { 1 } else { 0 } };
+        let top: u64 = if msb == 0 { 0 } else { rng.u64() << (64 - msb as u32) };
+        for d in [-2i64, -1, 0, 1, 2] {
+            let lowd = low.wrapping_add(d as u64);
+            let biased = if msb == 0 { lowd } else { (lowd & (u64::MAX >> msb)) | top };
+            out.push(biased.wrapping_sub(1u64 << 63) as i64);
+        }
+    }
+    out
+}
+
 fn check_shard_of(o: &mut Outcome, n: u16, msb: u8, token: i64) {
     let s = sharder(n, msb);
     // A `Token` can never carry i64::MIN (the constructor normalises it to i64::MAX, as
@@ -246,16 +268,28 @@ pub fn run(ctx: &Ctx) -> Outcome {
                 for t in &tokens {
                     check_shard_of(&mut o, *n, msb, *t);
                 }
+                // both sides of the shard boundaries (all of them for small shard counts)
+                if *n > 1 {
+                    for t in shard_boundary_tokens(*n, msb, &mut rng, if msb % 8 == 0 { 24 } else { 4 }) {
+                        check_shard_of(&mut o, *n, msb, t);
+                    }
+                    o.class("shard_of:shard-boundary-tokens");
+                }
             }
         }
         o.class("shard_of:grid");
         // random large n
         let extra = ctx.vol(20_000, 3_000_000) / workers as u64;
-        for _ in 0..extra {
+        for i in 0..extra {
             let n = rng.range(1, 65535) as u16;
             let msb = rng.below(64) as u8;
             let t = rng.i64_boundary();
             check_shard_of(&mut o, n, msb, t);
+            if i % 8 == 0 && n > 1 {
+                for t in shard_boundary_tokens(n, msb, &mut rng, 2) {
+                    check_shard_of(&mut o, n, msb, t);
+                }
+            }
         }
         o.class("shard_of:random");
 
@@ -300,7 +334,7 @@ pub fn run(ctx: &Ctx) -> Outcome {
         }
         o
     });
-    for c in ["ports:empty-set", "ports:nonempty-set", "ports:range-shorter-than-shard-count", "ports:range-ends-at-65535", "shard_of:grid"] {
+    for c in ["shard_of:shard-boundary-tokens", "ports:empty-set", "ports:nonempty-set", "ports:range-shorter-than-shard-count", "ports:range-ends-at-65535", "shard_of:grid"] {
         out.require_class(c);
     }
     out.exhaustive = Some(false);
